@@ -3,6 +3,7 @@ import z3
 import core
 from core import bv, is_sym
 from replay import Tr
+from fault import succeeded, failed_now, OpFailed
 
 I64, I32, I8 = core.ir.int_t(64), core.ir.int_t(32), core.ir.int_t(8)
 M64 = (1 << 64) - 1
@@ -205,7 +206,7 @@ class Seq:
             self.ex.check(p == 0, "push_back:full-buffer-must-refuse")
             self.check_state("push_back-refused")
             return
-        self.ex.check(p != 0, "push_back:unexpected-failure")
+        succeeded(self.ex, p != 0, "push_back:unexpected-failure")
         ptr, siz, num, mem = self.cur()
         self.ex.check(p == ptr + siz * n, "push_back:returns-new-last-slot")
         self.inside(p, "push_back")
@@ -226,7 +227,7 @@ class Seq:
             self.ex.check(p == 0, what + ":full-buffer-must-refuse")
             self.check_state(what + "-refused")
             return
-        self.ex.check(p != 0, what + ":unexpected-failure")
+        succeeded(self.ex, p != 0, what + ":unexpected-failure")
         ptr, siz, num, mem = self.cur()
         self.ex.check(p == ptr + siz * pos, what + ":returns-slot-at-position", "p=%s expected index %d" % (p, pos))
         self.inside(p, what)
@@ -274,7 +275,7 @@ class Seq:
             ex.check(rc == A_OBOUNDS, "store:must-refuse-what-does-not-fit", "rc=%s" % rc)
             self.check_state("store-refused")
             return
-        ex.check(rc == 0, "store:unexpected-failure", "rc=%s" % rc)
+        succeeded(ex, rc == 0, "store:unexpected-failure", "rc=%s" % rc)
         at = pos if pos is not None else len(self.model)
         self.model[at:at] = new
         self.check_state("store")
@@ -300,7 +301,7 @@ class Seq:
                 ex.add(z3.UGE(n, cnt - pos))
             end = cnt
         rc = self.call("erase", idx, n, self.dtor if with_dtor else 0, ret="i32")
-        ex.check(rc == 0, "erase:unexpected-failure", "rc=%s" % rc)
+        succeeded(ex, rc == 0, "erase:unexpected-failure", "rc=%s" % rc)
         ptr, siz = self.cur()[0], self.siz
         if with_dtor:
             ex.check(self.dtor_calls == [ptr + siz * i for i in range(pos, end)], "erase:destructor-not-applied-to-erased-range",
@@ -315,7 +316,7 @@ class Seq:
         cnt, mem = len(self.model), self.cur()[3]
         rc = self.call("setn", n, self.dtor if with_dtor else 0, ret="i32" if self.kind == "vec" else "void")
         if self.kind == "vec":
-            ex.check(rc == 0, "setn:unexpected-failure")
+            succeeded(ex, rc == 0, "setn:unexpected-failure")
             newn = n
         else:
             newn = min(n, mem)
@@ -333,14 +334,14 @@ class Seq:
         cnt = len(self.model)
         if self.kind == "vec":
             rc = self.call("setm", m, ret="i32")
-            ex.check(rc == 0, "setm:unexpected-failure")
+            succeeded(ex, rc == 0, "setm:unexpected-failure")
             ex.check(self.cur()[3] >= m, "setm:capacity-not-reached")
             self.check_state("setm")
         else:
             if m < cnt:
                 return      # shrinking below the element count is outside the documented use (noted in DESIGN)
             p = self.call("setm", m, ret="ptr")
-            ex.check(p != 0, "setm:unexpected-failure")
+            succeeded(ex, p != 0, "setm:unexpected-failure")
             self.hdr = p
             self.tr.adopt(p, 24 + self.siz * m, "buf_moved")
             ex.check(self.cur()[3] == m, "setm:capacity")
@@ -407,7 +408,7 @@ class Seq:
             ex.check(p == 0, "push_sort:full-buffer-must-refuse")
             self.check_state("push_sort-refused")
             return
-        ex.check(p != 0, "push_sort:unexpected-failure")
+        succeeded(ex, p != 0, "push_sort:unexpected-failure")
         self.inside(p, "push_sort")
         ptr, siz, num, mem = self.cur()
         ex.check(num == len(old) + 1, "push_sort:count")
